@@ -289,7 +289,10 @@ def library(draw, lang=None, max_decls=8, with_python=None, with_lua=None, featu
             base = names.fresh("Overload")
             sigs = draw(st.lists(st.sampled_from(["int", "double", "string", "none", "int,int"]),
                                  min_size=2, max_size=3, unique=True))
-            for sg in sigs:
+            # output.rst "C Preprocessor": members of an overload set under conditional compilation
+            cond = draw(st.sampled_from([None, None, ["ifdef VF_HAVE_A", "ifndef VF_HAVE_A", None],
+                                         ["ifdef VF_HAVE_A", None, "ifdef VF_HAVE_B"]]))
+            for isg, sg in enumerate(sigs):
                 ps = []
                 for j, t in enumerate([x for x in sg.split(",") if x != "none"]):
                     if t == "string":
@@ -298,7 +301,8 @@ def library(draw, lang=None, max_decls=8, with_python=None, with_lua=None, featu
                         ps.append(P("a%d" % j, "%s a%d" % (t, j), "", "N1", t))
                 lib["decls"].append(dict(kind="func", name=base, rtype="void", rattrs="", rrow="Rvoid", rT=None,
                                          params=ps, py=True, lua=True, const=False, static=False,
-                                         options={}, format={}, extra={}, overload=True))
+                                         options={}, format={},
+                                         extra=({"cpp_if": cond[isg]} if cond and cond[isg] else {}), overload=True))
         elif k == "default":
             # tutorial.rst "Optional Arguments"
             f = draw(function(lang, names, prefix="Defaulted", allow={"N1"}, max_params=1, result="RN"))
